@@ -62,6 +62,12 @@ var vC04Catalogue = []vComp{
 		{regs: []vReg{{"MOUNT", "/", "", "", ""}, {"GET", "/z", "s", "", ""}}, mounts: []int{1}},
 		{regs: []vReg{{"GET", "/Pr", "s", "", ""}, {"GET", "/it/", "s", "", ""}, {"USE", "/Q", "n", "", ""}}},
 	}, names: nil, lens: []int{2, 3, 4}, methods: []string{"GET"}},
+	// two sub-apps mounted on the same prefix, one directly after the other
+	/*10*/ {apps: []vCompApp{
+		{regs: []vReg{{"MOUNT", "/m", "", "", ""}, {"MOUNT", "/m", "", "", ""}, {"GET", "/m/z", "s", "", ""}}, mounts: []int{1, 2}},
+		{regs: []vReg{{"GET", "/x", "s", "", ""}}},
+		{regs: []vReg{{"GET", "/y", "s", "", ""}, {"POST", "/y", "s", "", ""}}},
+	}, names: nil, lens: []int{4}, methods: []string{"GET", "POST", "PUT"}},
 }
 
 type vC04World struct {
